@@ -59,8 +59,8 @@ func c05class(ip net.IP) string {
 }
 
 type c05dest struct {
-	str    string // SOCKS address text ("host:port")
-	label  string
+	str      string // SOCKS address text ("host:port")
+	label    string
 	scripted [][]net.IP
 }
 
